@@ -288,7 +288,7 @@ func c13Configs() []c13Input {
 				}
 				b.WriteString(")\n\n")
 			}
-			fmt.Fprintf(&b, "func F%d() int {\n\treturn %d\n}\nprint(\"file %d\", F%d())\n", i, i, i, i)
+			fmt.Fprintf(&b, "Count%d := %d\nhidden := %d\nShared := \"s\"\nfunc F%d() int {\n\treturn %d + Count%d + hidden\n}\nprint(\"file %d\", F%d(), Shared)\n", i, i, i, i, i, i, i, i)
 			files[n] = b.String()
 		}
 		out = append(out, c13Input{key: fmt.Sprintf("config/import-graph/%03o", mask), main: "a.tsh", files: files})
@@ -423,6 +423,53 @@ func c13StdGraphs() ([]c13Input, map[string]string) {
 			out = append(out, c13Input{key: "config/callgraph/" + gk + "/unused", files: map[string]string{"main.tsh": g[0] + "print(1)\n"}})
 		}
 	}
+	// size: single constructs that are long, wide or deep (the work per construct must stay bounded)
+	{
+		rep := func(n int, f func(i int) string, sep string) string {
+			parts := make([]string, n)
+			for i := range parts {
+				parts[i] = f(i)
+			}
+			return strings.Join(parts, sep)
+		}
+		big := map[string]string{
+			"sum-80-terms":            "x := 1\ny := " + rep(80, func(i int) string { return "x" }, " + ") + "\nprint(y)\n",
+			"mixed-ops-60":            "x := 3\ny := " + rep(60, func(i int) string { return []string{"x", "2", "(x)"}[i%3] }, " * ") + "\nprint(y)\n",
+			"concat-60":               "s := \"a\"\nt := " + rep(60, func(i int) string { return []string{"s", "\"b\""}[i%2] }, " + ") + "\nprint(t)\n",
+			"and-chain-60":            "b := true\nc := " + rep(60, func(i int) string { return "b" }, " && ") + "\nprint(c)\n",
+			"or-and-mix-60":           "b := true\nc := " + rep(30, func(i int) string { return "b && !b" }, " || ") + "\nprint(c)\n",
+			"comparison-of-sums":      "x := 1\nc := " + rep(40, func(i int) string { return "x" }, " + ") + " == " + rep(40, func(i int) string { return "x" }, " + ") + "\nprint(c)\n",
+			"parentheses-depth-60":    "x := 1\ny := " + strings.Repeat("(", 60) + "x" + strings.Repeat(")", 60) + "\nprint(y)\n",
+			"nested-groups-with-ops":  "x := 1\ny := " + strings.Repeat("(1 + ", 50) + "x" + strings.Repeat(")", 50) + "\nprint(y)\n",
+			"nested-calls-depth-40":   "func id(a int) int {\n\treturn a\n}\nprint(" + strings.Repeat("id(", 40) + "1" + strings.Repeat(")", 40) + ")\n",
+			"nested-not-60":           "b := true\nc := " + strings.Repeat("!", 60) + "b\nprint(c)\n",
+			"nested-ifs-depth-40":     "x := 1\n" + rep(40, func(i int) string { return strings.Repeat("\t", i) + "if x == 1 {" }, "\n") + "\n" + strings.Repeat("\t", 40) + "print(x)\n" + rep(40, func(i int) string { return strings.Repeat("\t", 39-i) + "}" }, "\n") + "\n",
+			"nested-loops-depth-20":   rep(20, func(i int) string { return strings.Repeat("\t", i) + fmt.Sprintf("for i%d := 0; i%d < 1; i%d++ {", i, i, i) }, "\n") + "\n" + strings.Repeat("\t", 20) + "print(1)\n" + rep(20, func(i int) string { return strings.Repeat("\t", 19-i) + "}" }, "\n") + "\n",
+			"else-if-chain-80":        "x := 1\nif x == 0 {\n" + rep(80, func(i int) string { return fmt.Sprintf("} else if x == %d {\n\tprint(%d)", i+1, i) }, "\n") + "\n}\n",
+			"switch-100-cases":        "x := 1\nswitch x {\n" + rep(100, func(i int) string { return fmt.Sprintf("case %d:\n\tprint(%d)", i, i) }, "\n") + "\n}\n",
+			"statements-600":          "x := 0\n" + rep(600, func(i int) string { return "x += 1" }, "\n") + "\nprint(x)\n",
+			"parameters-60":           "func wide(" + rep(60, func(i int) string { return fmt.Sprintf("p%d int", i) }, ", ") + ") int {\n\treturn p0 + p59\n}\nprint(wide(" + rep(60, func(i int) string { return fmt.Sprint(i) }, ", ") + "))\n",
+			"results-12":              "func many() (" + rep(12, func(i int) string { return "int" }, ", ") + ") {\n\treturn " + rep(12, func(i int) string { return fmt.Sprint(i) }, ", ") + "\n}\n" + rep(12, func(i int) string { return fmt.Sprintf("r%d", i) }, ", ") + " := many()\nprint(r0, r11)\n",
+			"slice-literal-400":       "s := []int{" + rep(400, func(i int) string { return fmt.Sprint(i) }, ", ") + "}\nprint(len(s))\n",
+			"print-120-operands":      "x := 1\nprint(" + rep(120, func(i int) string { return "x" }, ", ") + ")\n",
+			"string-literal-20k":      "s := \"" + strings.Repeat("abcdefghij", 2000) + "\"\nprint(len(s))\n",
+			"identifier-2k":           strings.Repeat("name", 500) + " := 1\nprint(" + strings.Repeat("name", 500) + ")\n",
+			"pipeline-30-stages":      "o, e, c := " + rep(30, func(i int) string { return "@cat()" }, " | ") + "\nprint(o, c)\n",
+			"subscript-chain":         "s := \"abcdefghijklmnopqrstuvwxyz\"\nt := s[1:20]\nu := t[1:15]\nprint(u[" + rep(30, func(i int) string { return "1" }, " + ") + " - 29])\n",
+			"comment-200k":            "/* " + strings.Repeat("x ", 100000) + "*/\nprint(1)\n",
+			"blank-lines-20k":         strings.Repeat("\n", 20000) + "print(1)\n",
+		}
+		for _, k := range sortedKeys(func() map[string]string {
+			m := map[string]string{}
+			for k := range big {
+				m[k] = ""
+			}
+			return m
+		}()) {
+			out = append(out, c13Input{key: "config/size/" + k, files: map[string]string{"main.tsh": big[k]}})
+			out = append(out, c13Input{key: "config/size/" + k + "/imported", files: map[string]string{"main.tsh": "import g \"big.tsh\"\n\nprint(1)\n", "big.tsh": big[k]}})
+		}
+	}
 	// a chain of 40 local files and a chain that closes on its first member
 	for _, closed := range []bool{false, true} {
 		files := map[string]string{}
@@ -446,7 +493,7 @@ func c13StdGraphs() ([]c13Input, map[string]string) {
 }
 
 func checkC13(c *Check) {
-	c.Rule = "hostile inputs fed to the real Transpile in child worker processes (recover + death/hang detection + isolated confirmation): all single-token edits (delete, duplicate, swap, truncate before and right after the token, replace by 66 representative lexemes) of a corpus of valid programs (sampled in the quick tier), random double edits, random bytes / token-alphabet bytes / token soups, semantic near-misses (void and multi-value calls at every operand position, malformed headers and literals), an argument matrix (52 operand positions of builtins, indexing forms and statements x 40 kinds of expression), the cells of C06's typing table and C07's scope table (every typed position x every kind of offered expression; every statement at every site), control-flow/definition statements placed in all pairs of 14 enclosing contexts (open and already closed loops, switch cases, functions, branches), configurations (missing/empty/directory main file, broken imports, all 512 import graphs over three files incl. self- and mutual imports, all 16 graphs over two modules of the std directory in both import styles reached from the main file and from a local library, chains of 40 files, call graphs with shared callees: Fibonacci-style up to 200 functions, layered 3x30 and 5x12, chains of 300); oracle = result-shape predicate (exactly one of script / error, non-empty error text, no panic, no worker death, return within the bound) for both targets. Non-trivial = every input; distinct = SHA-256 of the input files"
+	c.Rule = "hostile inputs fed to the real Transpile in child worker processes (recover + death/hang detection + isolated confirmation): all single-token edits (delete, duplicate, swap, truncate before and right after the token, replace by 66 representative lexemes) of a corpus of valid programs (sampled in the quick tier), random double edits, random bytes / token-alphabet bytes / token soups, semantic near-misses (void and multi-value calls at every operand position, malformed headers and literals), an argument matrix (52 operand positions of builtins, indexing forms and statements x 40 kinds of expression), the cells of C06's typing table and C07's scope table (every typed position x every kind of offered expression; every statement at every site), control-flow/definition statements placed in all pairs of 14 enclosing contexts (open and already closed loops, switch cases, functions, branches), configurations (missing/empty/directory main file, broken imports, all 512 import graphs over three files incl. self- and mutual imports, all 16 graphs over two modules of the std directory in both import styles reached from the main file and from a local library, chains of 40 files, call graphs with shared callees: Fibonacci-style up to 200 functions, layered 3x30 and 5x12, chains of 300; 25 single constructs of large size: 80-term sums, 60-operand chains of every operator family, parentheses / calls / blocks nested 40-60 deep, 100 switch cases, 600 statements, 60 parameters, 400-element literals, 20 000-character literals and comments); oracle = result-shape predicate (exactly one of script / error, non-empty error text, no panic, no worker death, return within the bound) for both targets. Non-trivial = every input; distinct = SHA-256 of the input files"
 	c.Assumptions = []string{"termination bound: 20 s in a loaded worker, then 90 s alone in a fresh worker; a hit is reported only after the isolated confirmation (normal cost is milliseconds)", "worker stack limit 256 MiB so that unbounded recursion dies quickly"}
 	runProbes(c, bashProbeJudge)
 	r := rand.New(rand.NewSource(c.Seed*13000027 + 3))
